@@ -40,6 +40,17 @@ def tpl_gather(size, cb, x1, x2, a2, x3, a3, rx, c1, b1, c2, b2, c3, b3, t1, t, 
             g = it.gather[0] if it.gather else None
             if it.waiter is not None and it.waiter.done() and (g is None or not g.done()):
                 w.fail(806)
+            g2 = st.get("g2")
+            if g2 is not None and g2.done() and not st.get("seen2"):
+                # a second call that overlapped the first: it, too, returns only once everything is over and the pool is closed
+                st["seen2"] = True
+                if task_outcome(g2)[0] == "ok":
+                    if w.live:
+                        w.fail(803)
+                    if w.incb:
+                        w.fail(811)
+                    if not pool._closed.is_set() or pool.num_running:
+                        w.fail(808)
             if g is not None and g.done() and not st["seen"]:
                 st["seen"] = True
                 kind, exc = task_outcome(g)
@@ -85,6 +96,10 @@ def tpl_gather(size, cb, x1, x2, a2, x3, a3, rx, c1, b1, c2, b2, c3, b3, t1, t, 
             if dord == 2:
                 it.lock()       # "no new requests, then drain": the pool is already locked when gather_and_close() is called
             it.gather_and_close(rx == 1)
+            if dord == 3:
+                w.settle()
+                w.op("gather-again", rx == 1)
+                st["g2"] = w.do_gather(pool, rx == 1)
             for c, b in ((c1, b1), (c2, b2), (c3, b3)):
                 w.settle()
                 act(it, select(COMP, c), b)
@@ -97,6 +112,8 @@ def tpl_gather(size, cb, x1, x2, a2, x3, a3, rx, c1, b1, c2, b2, c3, b3, t1, t, 
         code = w.err
         if not code and not w.excluded:
             code = _final(w, it, pool, rx)
+            if not code and st.get("g2") is not None and task_outcome(st["g2"])[0] == "pending":
+                code = 801
         if _twin and not code and not w.excluded:
             if st["seen"] and len(w.W) >= 4 and any(r["kind"] == "map" for r in it.reqs):
                 code = 77
@@ -139,12 +156,12 @@ def families(tier):
     P0 = None
     P = ["size", "cb", "x1", "x2", "a2", "x3", "a3", "rx", "c1", "b1", "c2", "b2", "c3", "b3", "t1", "t", "dord"]
     pre = ["size >= 1", "cb == 1 or cb == 3", "0 <= x1 < 4", "0 <= x2 <= %d" % NOPP, "a2 >= -1", "0 <= x3 <= %d" % NOPP, "a3 >= -1", "0 <= rx <= 1",
-           "0 <= c1 <= %d" % NOPC, "b1 >= 0", "0 <= c2 <= %d" % NOPC, "b2 >= 0", "0 <= c3 <= %d" % NOPC, "b3 >= 0", "t1 >= 0", "t >= 0", "0 <= dord <= 2"]
+           "0 <= c1 <= %d" % NOPC, "b1 >= 0", "0 <= c2 <= %d" % NOPC, "b2 >= 0", "0 <= c3 <= %d" % NOPC, "b3 >= 0", "t1 >= 0", "t >= 0", "0 <= dord <= 3"]
     if not thorough:
         pre += ["t1 >= 4", "size <= 2", "a2 <= 1",
                 "(dord == 0 and c2 == %d and b2 == 0 and c3 == %d and b3 == 0 and b1 <= 1) or "
                 "(dord == 1 and x1 == 2 and x2 == %d and rx == 0 and c1 == 0 and c2 == 0 and c3 == 0 and b1 <= 2 and b2 <= 2 and b3 <= 2) or "
-                "(dord == 2 and x2 == %d and c2 == %d and b2 == 0 and c3 == %d and b3 == 0 and b1 <= 1)" % (NOPC, NOPC, NOPP, NOPP, NOPC, NOPC),
+                "(dord >= 2 and x2 == %d and c2 == %d and b2 == 0 and c3 == %d and b3 == 0 and b1 <= 1)" % (NOPC, NOPC, NOPP, NOPP, NOPC, NOPC),
                 "x3 == %d or (x2 <= 1 and 2 <= x3 <= 3) or (2 <= x2 <= 3 and x3 <= 1) or (x2 == 6 and x3 <= 1) or (x2 == 4 and x3 == 4)" % NOPP,
                 "a3 <= 1", "t == 0 or t >= 4", "rx == 0 or x2 >= 4"]
         parts = [p for p in parts_product(cb=(3,), x1=range(4), x2=range(NOPP + 1), rx=(0, 1))
@@ -155,7 +172,7 @@ def families(tier):
         parts = refine(parts, ["x2 == 4"], "x3", (4, NOPP))
         parts = [q for p in parts for q in ([p + ["a2 == %d" % v] for v in (-1, 0, 1)] if ("x2 == 4" in p and "x3 == 4" in p) else [p])]
         parts = [p + ["dord == 0"] for p in parts] + [["cb == 3", "x1 == 2", "x2 == %d" % NOPP, "rx == 0", "dord == 1", "b1 == %d" % b] for b in range(3)]
-        parts += [["cb == 3", "x1 == %d" % k, "x2 == %d" % NOPP, "rx == %d" % r, "dord == 2"] for k in range(4) for r in (0, 1)]
+        parts += [["cb == 3", "x1 == %d" % k, "x2 == %d" % NOPP, "rx == %d" % r, "dord == %d" % dd] for k in range(4) for r in (0, 1) for dd in (2, 3)]
     else:
         # sized to finish inside the wall budget on 16 cores: a second completion step only with the gated callbacks (cb 3)
         pre += ["dord <= 1 or (x2 == %d and x3 == %d)" % (NOPP, NOPP), "t1 >= 4", "c3 == %d" % NOPC, "b3 == 0", "size <= 2", "b1 <= 1", "a2 <= 1", "b2 <= 1", "cb == 3 or c2 == %d" % NOPC,
